@@ -41,7 +41,11 @@ FINISH = {"level": "proof", "assumptions": [
     "SwitchToFollower's waits (the harness sets slock.state / db.status and calls ReplicationAckDB.SwitchToFollower itself), "
     "LockDB.FlushDB (forced expiry of everything), millisecond timers, update-when-locked, show-when-locked, priorities, E = 0 requests",
     "command subset: LOCK Flag ∈ {0, 0x20}, TimeoutFlag ∈ {0, 0x1000}, ExpriedFlag 0, 0 < Expried < 190, value frames SET / INCR(8) / "
-    "APPEND without property header; UNLOCK Flag ∈ {0, 0x01}; db.aofTime = 200 s (holds that did not go through the ack branch are never "
+    "APPEND without property header and PIPELINE frames made of 1..n of those (the code applies every sub-operation to the cell as it was "
+    "before the pipeline, so a pipeline leaves its LAST sub-operation applied to that cell: modelled as such; its undo is the saved cell, "
+    "c3f898d / 521fe0b). One history in nine is a PROBE history: its value frames also use SHIFT / PUSH / POP / array SET, alone and as "
+    "pipeline sub-operations; probe histories are run on the real code under recover() for the monitors only (C13:ack-recover-panic, "
+    "C11:value-not-restored:*, census …) and are not compared with the model (distribution: probe-history…; VERIF_ACK_NOPROBE=1 turns them off); UNLOCK Flag ∈ {0, 0x01}; db.aofTime = 200 s (holds that did not go through the ack branch are never "
     "journalled by age); key records are pinned (lockManager.refCount+1) for the duration of a history so that the value cell is not "
     "recycled (key-record lifetime is M-ENGINE stage 2's subject)",
     "lock-record reference counts and the recycling of freed Lock objects (db.freeLocks[shard]) are NOT in the model; the harness checks "
@@ -99,7 +103,7 @@ def run_ack(ctx, exe, n, seed, extra=None):
     if not outdir:
         return
     dis = ctx.diff(outdir, "ack", classify=classify)
-    seen = read_monitor(ctx, outdir, "ack", ["C11:"])
+    seen = read_monitor(ctx, outdir, "ack", ["C11:", "C13:"])
     sp = os.path.join(outdir, "ack.stats")
     if os.path.exists(sp):
         dist = ctx.cov.setdefault("distribution", {})
@@ -124,7 +128,7 @@ def run_fixed(ctx, exe):
         return
     n = sum(1 for l in open(FIXED) if l.startswith("ack "))
     dis = ctx.diff(outdir, "ack")
-    seen = read_monitor(ctx, outdir, "ack", ["C11:"])
+    seen = read_monitor(ctx, outdir, "ack", ["C11:", "C13:"])
     bad = sorted(k for k in seen if k not in FIXED_STILL_OPEN)
     ctx.cov["fixed_corpus"] = {"lines": n, "disagreements": len(dis or []), "regressions": bad,
                                "still_open_seen": {k: v for k, v in seen.items() if k in FIXED_STILL_OPEN}}
